@@ -234,6 +234,8 @@ def ev(e, env):
                 if nm == "shl":
                     return mul(a, const(1 << cb))
                 return atom(("div" if nm == "div" else "shr", freeze(a), cb))
+            if a is not TOP and b is not TOP:
+                return atom(("fn", nm, freeze(a), freeze(b)))
             return opaque()
         if nm in ("clone", "to_owned", "into", "unwrap", "expect", "as_ref", "borrow", "ok_or_else", "ok_or", "context", "with_context", "unwrap_or_default") and len(args) <= 1:
             return ev(e["recv"], env)
